@@ -29,8 +29,22 @@ func NeutralSep(r *run.Rng, allowCRonly bool) string {
 			body := commentBodies[r.Intn(len(commentBodies))]
 			body = strings.ReplaceAll(body, "*/", "* /")
 			body = strings.ReplaceAll(body, "/*", "/ *")
-			if r.Chance(1, 3) {
-				body = body + " /* nested " + pickLB(r, allowCRonly) + " */ tail"
+			if r.Chance(1, 2) {
+				// nested comments, including openers and closers that share characters with their neighbours
+				switch r.Intn(6) {
+				case 0:
+					body = body + " /* nested " + pickLB(r, allowCRonly) + " */ tail"
+				case 1:
+					body = body + " tmp/*/ x = 2.0; */ tail" // the nested opener is followed by '/'
+				case 2:
+					body = body + " /**/ tail" // empty nested comment
+				case 3:
+					body = body + " /***/ /* * / */ tail"
+				case 4:
+					body = body + " /* a /* b */ c /*/ d */ e */ tail" // depth 3
+				default:
+					body = "* " + body + " /*//*/ y */ */ **"
+				}
 			}
 			sb.WriteString("/* " + body + " */")
 		default:
